@@ -24,15 +24,23 @@ import translate_symterm as TS
 
 ID = 'C04'
 COQ_FILES = ['Base/Mat.v', 'Base/SumQ.v', 'Model/SymTerm.v', 'Proofs/SymTerm.v', 'Proofs/SymTermLib.v', 'Gen/SymTermGen.v',
-             'Model/SymTermGenRun.v', 'Proofs/SymTermGenThm.v', 'Properties/C04.v']
-THEOREMS = ['C04_sumQ_reindex', 'C04_symterm_equivariant', 'C04_prog_equivariant',
-            'C04_measure_equivariant_scalar', 'C04_measure_equivariant_vector', 'C04_measure_equivariant_matrix',
-            'C04_library_equivariant', 'C04_degrees_und', 'C04_clustering_coef_bu', 'C04_transitivity_bu',
-            'C04_matching_ind', 'C04_gtom', 'C04_distance_bin', 'C04_kcore_bu', 'C04_participation_coef',
-            'C04_module_degree_zscore', 'C04_components', 'C04_assortativity_wei', 'C04_betweenness_bin', 'C04_kcoreness',
-            'C04_pagerank_equation_partial', 'C04_eigenvector_equation_partial', 'C04_subgraph_truncation_partial',
-            'C04_list_permutation', 'C04_run_equivariant', 'C04_every_term_measure_equivariant', 'C04_denote_degrees_und', 'C04_denote_transitivity_bu',
-            'C04_gen_equivariant', 'C04_gen_run_equivariant', 'C04_gen_same_as_hand_sound']
+             'Model/SymTermGenRun.v', 'Proofs/SymTermGenThm.v', 'Model/SymTermKinds.v', 'Proofs/SymTermKinds.v',
+             # equivariance of the STATEMENT-LEVEL models of C03 / C16 / C08 / C15 / C18 (their files are pulled in as dependencies)
+             'Proofs/EquivModels.v', 'Proofs/EquivModelsComp.v', 'Proofs/EquivModelsBetw.v', 'Proofs/EquivModelsCore.v',
+             'Proofs/EquivModelsWalks.v', 'Proofs/EquivModelsLinear.v', 'Proofs/SymTermFull.v', 'Properties/C04.v']
+THEOREMS = ['C04_sumQ_reindex', 'C04_symterm_equivariant', 'C04_prog_equivariant', 'C04_measure_equivariant_scalar',
+            'C04_measure_equivariant_vector', 'C04_measure_equivariant_matrix', 'C04_measure_equivariant_kinded', 'C04_library_equivariant',
+            'C04_degrees_und', 'C04_clustering_coef_bu', 'C04_transitivity_bu', 'C04_matching_ind',
+            'C04_gtom', 'C04_distance_bin', 'C04_kcore_bu', 'C04_participation_coef',
+            'C04_module_degree_zscore', 'C04_components', 'C04_assortativity_wei', 'C04_betweenness_bin',
+            'C04_kcoreness', 'C04_pagerank_equation', 'C04_eigenvector_equation', 'C04_pagerank_full',
+            'C04_eigenvector_full', 'C04_residual_terms_denote', 'C04_subgraph_truncation_partial', 'C04_inverse_renumbering',
+            'C04_floyd_model_equivariant', 'C04_distance_wei_floyd_model_equivariant', 'C04_distance_bin_model_equivariant', 'C04_distance_wei_model_equivariant',
+            'C04_breadthdist_model_equivariant', 'C04_reachdist_model_equivariant', 'C04_get_components_model_equivariant', 'C04_number_of_components_model_equivariant',
+            'C04_betweenness_model_equivariant', 'C04_edge_betweenness_model_equivariant', 'C04_kcore_model_equivariant', 'C04_core_outputs_unfold',
+            'C04_kcoreness_model_equivariant', 'C04_findwalks_model_equivariant', 'C04_pagerank_model_equivariant', 'C04_eigenvector_model_equivariant',
+            'C04_list_permutation', 'C04_run_equivariant', 'C04_every_term_measure_equivariant', 'C04_denote_degrees_und',
+            'C04_denote_transitivity_bu', 'C04_gen_equivariant', 'C04_gen_run_equivariant', 'C04_gen_same_as_hand_sound']
 RULE = ('structured graphs (cycles, complete, complete bipartite, stars, paths, disjoint copies, cube: repeated eigenvalues; '
         'isolated nodes) and Erdos-Renyi matrices n=2..8, binary/weighted (dyadic weights from a 2-4 element set: many '
         'ties), directed/undirected, signed, with label vectors (non-contiguous labels); every n! permutation for n<=4 '
@@ -665,8 +673,9 @@ def gen_correspondence(ctx, bct, cg):
                     variants.append(('bool', g[kind] != 0))
                 for dt, A in variants:
                     for ks in GEN_SCALARS.get(tg['func'], [()]):
+                        ctx.take_variants()
                         r, err = safe(lambda: f(A.copy(), *ks, **tg['fixed']))
-                        case = {'generated': t['name'], 'function': tg['func'], 'dtype': dt, 'A': A.astype(float).tolist(), 'ks': list(ks), 'fixed': tg['fixed']}
+                        case = ctx.tag_case({'generated': t['name'], 'function': tg['func'], 'dtype': dt, 'A': A.astype(float).tolist(), 'ks': list(ks), 'fixed': tg['fixed']})
                         ctx.count('gen_dtype:' + dt)
                         if err is not None:
                             ctx.count('gen_impl_raises:%s:%s:%s' % (tg['func'], dt, err))
